@@ -12,10 +12,10 @@ NOTES = ("Technique family: runtime monitoring. Every verdict comes from executi
 NOT_CLAIMED = {}
 CHECK_TEXT = {
     "C07": {
-        "technique": "runtime oracle over generated inputs: independent JSON model (order/number-text/decoded-string equality) + reference shape transform",
+        "technique": "runtime oracle over generated inputs: independent JSON model (order/number-text/decoded-string equality) + reference shape transform; end to end: generated documents as SPINE payloads between two real completed connections, reader output compared with what was sent",
         "level_text": "Held on every generated document of the run (200k quick / 5M thorough) except the two recorded input classes; "
                       "exploration of the input space by a seeded grammar generator and mutated real datagrams, not a proof.",
-        "level_note": "Trusts the harness's own JSON parser/serialiser (jsonast.go) as reference; documents <= depth 6 / width 6; no duplicate member names, no lone surrogates.",
+        "level_note": "Trusts the harness's own JSON parser/serialiser (common/jdoc) as reference; documents <= depth 6 / width 6; no duplicate member names, no lone surrogates.",
         "design_ref": "DESIGN.md 6 C07",
     },
     "C16": {
@@ -55,8 +55,8 @@ CHECK_TEXT = {
         "design_ref": "DESIGN.md 6 C08",
     },
     "C09": {
-        "technique": "runtime monitor over event logs: presented-vs-stored SHIP id oracle with an independent parser of the presented id",
-        "level_text": "Held on the full stored x presented grid for both roles and on two-endpoint runs with wrong/right/unknown ids.",
+        "technique": "runtime monitor over event logs: presented-vs-stored SHIP id oracle with an independent parser of the presented id; hub level: application callback log of real hub pairs with stored right/wrong ids, both dial directions, store-on-report and a peer restarting with a changed id",
+        "level_text": "Held on the full stored x presented grid for both roles, on two-endpoint runs with wrong/right/unknown ids and on the explored real hub pairs (60 quick / 1500 thorough).",
         "level_note": "Mutated access messages that the independent parser cannot read strictly yield no verdict (counted).",
         "design_ref": "DESIGN.md 6 C09",
     },
@@ -73,7 +73,7 @@ CHECK_TEXT = {
         "design_ref": "DESIGN.md 6 C12, 3.5",
     },
     "C13": {
-        "technique": "fault injection at the k-th read/write of a wrapped net.Conn under virtual time + runtime monitor of reports, Close() calls and pump goroutines",
+        "technique": "fault injection at the k-th read/write of a wrapped net.Conn under virtual time (incl. a local close carried out between a socket read and the delivery of its frame) + runtime monitor of reports, deliveries, Close() calls and pump goroutines",
         "level_text": "Every injected single fault, peer close and local close of the explored sessions was reported (or not) as stated and released both pumps and the socket within 75 virtual seconds.",
         "level_note": "Fault positions are sampled per session (k ranges over the session's reads/writes); deciding readers react like ShipConnection; passive reader logged only.",
         "design_ref": "DESIGN.md 6 C13",
@@ -91,7 +91,7 @@ CHECK_TEXT = {
         "design_ref": "DESIGN.md 6 C19",
     },
     "C02": {
-        "technique": "runtime monitor at an independent endpoint: adversarial TLS/websocket peers with crafted certificates observe whether any SHIP byte is exchanged; application callback log",
+        "technique": "runtime monitor at an independent endpoint: adversarial TLS/websocket peers with crafted certificates (wrong/copied SKI, chains, other key types, a stolen genuine certificate without its key, authority key id of the victim) observe whether any SHIP byte is exchanged; application callback log incl. attribution of accepted peers",
         "level_text": "Every explored adversarial peer (160 quick / 3000 thorough) was refused before any SHIP message and every legitimate one accepted; generator certificates always pass.",
         "level_note": "Loopback TLS with Go's crypto/tls on both sides; certificate classes are generated, not all possible encodings.",
         "design_ref": "DESIGN.md 6 C02",
@@ -103,7 +103,7 @@ CHECK_TEXT = {
         "design_ref": "DESIGN.md 6 C05",
     },
     "C10": {
-        "technique": "runtime monitor over globally sequenced API call/return events and TCP accepts at per-(dialler,target) proxies (ordering oracle with a 500 ms in-flight tolerance)",
+        "technique": "runtime monitor over globally sequenced API call/return events and TCP accepts at per-(dialler,target) proxies (ordering oracle with a 500 ms in-flight tolerance); operations also triggered by the target's accept of a dial; perturbed build",
         "level_text": "No dial to unregistered SKIs, none after unregister/cancel/shutdown returned, and the stated end state on every explored operation script.",
         "level_note": "The tolerance is sound by workload design (delayed dials wait >= 1 s); three hubs on loopback.",
         "design_ref": "DESIGN.md 6 C10",
@@ -121,13 +121,13 @@ CHECK_TEXT = {
         "design_ref": "DESIGN.md 6 C15",
     },
     "C18": {
-        "technique": "runtime monitor: last delivered pairing-state notification vs PairingDetailForSki at a settled point on real hub pairs",
-        "level_text": "At every settled point of the explored runs the last notification showed the current state.",
-        "level_note": "Decides the final clause; intermediate reorderings that do not end stale are observationally not distinguishable from legitimate sequences (DESIGN.md).",
+        "technique": "runtime monitor: last delivered pairing-state notification vs PairingDetailForSki at every settled point (after each run) on real hub pairs: success/reconnect churn, refusal, pending, local and remote cancel, accept-then-unregister; focus perturbation of the notification goroutines; order check for single-connection runs",
+        "level_text": "At every settled point (one after each run: completed, refused, waiting for the user, cancelled by either side, accepted) of the explored scenarios the last notification showed the current state.",
+        "level_note": "Decides the final clause at every checkpoint and the order clause for undisturbed single-connection runs; other intermediate reorderings that do not end stale are observationally not distinguishable from legitimate sequences (DESIGN.md).",
         "design_ref": "DESIGN.md 6 C18",
     },
     "C20": {
-        "technique": "Go race detector over all engines' workloads plus a dedicated concurrent hub API stress profile; reports parsed from GORACE logs and de-duplicated by access pair",
+        "technique": "Go race detector over all engines' workloads plus a dedicated concurrent hub API stress profile and zeroconf rounds (real MdnsManager.Start, real multicast sockets); reports parsed from GORACE logs and de-duplicated by access pair",
         "level_text": "No data race with a library frame reported on the explored executions; evidence lists the overlapping operation pairs actually observed.",
         "level_note": "A clean run means no race on these executions, never race freedom.",
         "design_ref": "DESIGN.md 6 C20, 3.3",
